@@ -226,9 +226,12 @@ class Codec:
                 cheksum_base = self.SOH.join(msg[:-1])
                 checksum = (sum([ord(i) for i in cheksum_base]) + 1) % 256
 
-                if checksum != int(value):
+                # CheckSum is always three decimal digits
+                if not (len(value) == 3 and value.isascii() and value.isdigit()) or (
+                    checksum != int(value)
+                ):
                     logging.warning(
-                        "\tCheckSum: %s (INVALID) expecting %s" % (int(value), checksum)
+                        "\tCheckSum: %s (INVALID) expecting %s" % (value, checksum)
                     )
                     assert (
                         silent
